@@ -575,7 +575,7 @@ fn history_case(which: u64, ctx: &mut Ctx) {
 		}
 	}
 }
-const HISTORIES: [&str; 8] = [
+const HISTORIES: [&str; 9] = [
 	"id of a listener that was dropped and removed before the track was created",
 	"id of a removed listener while a new listener occupies the arena",
 	"listener dropped before its first callback",
@@ -584,6 +584,7 @@ const HISTORIES: [&str; 8] = [
 	"another listener dropped mid-run",
 	"track created before the listener's first callback",
 	"several of three listeners dropped between the same two callbacks",
+	"emitter moved (and its spatialization strength changed) while nothing plays on it, sound played afterwards",
 ];
 fn history(which: u64, sc: &Scene, ctx: &mut Ctx) {
 	let name = HISTORIES[which as usize];
@@ -680,6 +681,38 @@ fn history(which: u64, sc: &Scene, ctx: &mut Ctx) {
 			pump(&mut m, 2, &mut out).unwrap();
 			expect_ref(ctx, &out, "track and listener adopted in the same callback");
 			drop(l);
+		}
+		8 => {
+			// the track is idle (no sound, no child, no effect) while it is told to move from elsewhere to the scene's emitter
+			// position: whatever is played on it afterwards is heard from the new position from its first frame on
+			for tween_f in [0u64, 6] {
+				for wait in [2usize, 4] {
+					let mut m = mgr();
+					let l = m.add_listener(mv(sc.lpos), mq(sc.lq)).expect("listener");
+					let elsewhere = add(sc.epos, [7.0, -5.0, 3.0]);
+					let mut t = m.add_spatial_sub_track(l.id(), mv(elsewhere), sp_builder(Sp { s: 0.0, ..sc.sp })).expect("track");
+					let mut out = vec![];
+					pump(&mut m, 1, &mut out).unwrap();
+					t.set_position(mv(sc.epos), tween_frames(tween_f));
+					t.set_spatialization_strength(sc.sp.s, tween_frames(tween_f));
+					pump(&mut m, wait, &mut out).unwrap();
+					out.clear();
+					t.play(input()).expect("play");
+					pump(&mut m, 2, &mut out).unwrap();
+					if let Some(r) = reference {
+						if let Some(i) = out.iter().position(|f| (f.0 as f64 - r.0).abs() > 1e-6 || (f.1 as f64 - r.1).abs() > 1e-6) {
+							ctx.fail(
+								format!("live listener: level differs from the plain rendering of the same scene :: {}", name),
+								format!("history: {}; track created at {:?} with strength 0, one callback, set_position(scene emitter) and set_spatialization_strength(scene strength) with linear tweens of {} frames, {} callbacks of {} frames with nothing playing, then play: frame {} = {:?}, plain rendering {:?}; {}; frames {:?}", name, elsewhere, tween_f, wait, IBS, i, out[i], r, sc.desc(), out),
+							);
+						} else if r != (0.0, 0.0) {
+							ctx.nontrivial_extra += 1;
+						}
+					}
+					ctx.transitions += 4;
+					drop((t, l));
+				}
+			}
 		}
 		_ => {
 			// every non-empty subset of three listeners (each heard by its own track, same pose) dropped in one interval:
@@ -1224,23 +1257,28 @@ fn joint_case(tier: Tier, ctx: &mut Ctx) {
 				for &lq in &os {
 					for &d in &shifts {
 						for &frames in &durations {
-							for pat in &patterns {
+							for (pat, clocked) in patterns.iter().flat_map(|p| [(p, false), (p, true)]) {
 								let sc = Scene { lpos: LFIX, lq, epos, sp };
 								ctx.evals += 1;
 								ctx.traces += 1;
-								let what = format!("listener and emitter both moved by {:?} with linear tweens of {} frames issued in the same interval after the first callback; device callbacks of {:?} frames (repeating); start scene {}", d, frames, pat, sc.desc());
+								let what = format!("listener and emitter both moved by {:?} with linear tweens of {} frames issued in the same interval after the first callback{}; device callbacks of {:?} frames (repeating); start scene {}", d, frames, if clocked { ", both scheduled for tick 7 of a clock that runs at one tick per frame" } else { "" }, pat, sc.desc());
 								let r = catch(|| -> Result<Vec<(f32, f32)>, String> {
 									let mut m = mgr();
 									let mut l = m.add_listener(mv(sc.lpos), mq(sc.lq)).expect("listener");
 									let mut tr = m.add_spatial_sub_track(&l, mv(sc.epos), sp_builder(sc.sp)).expect("track");
 									tr.play(input()).expect("play");
+									let mut clock = m.add_clock(kira::clock::ClockSpeed::TicksPerSecond(SR as f64)).expect("clock");
+									clock.start();
 									let mut out = vec![];
 									pump(&mut m, 1, &mut out)?;
-									let tw = tween_frames(frames);
+									let mut tw = tween_frames(frames);
+									if clocked {
+										tw.start_time = StartTime::ClockTime(kira::clock::ClockTime { clock: clock.id(), ticks: 7, fraction: 0.0 });
+									}
 									l.set_position(mv(add(sc.lpos, d)), tw);
 									tr.set_position(mv(add(sc.epos, d)), tw);
 									let mut k = 0;
-									while out.len() < IBS + frames as usize + 2 * IBS {
+									while out.len() < IBS + 8 + frames as usize + 2 * IBS {
 										let rep = rig::render_stereo(&mut m, pat[k % pat.len()], &mut out);
 										if let Some(p) = rep.panic {
 											return Err(p);
